@@ -35,7 +35,10 @@ PRIMS = {  # scheme name -> (opcode case label, operand kinds)
 }
 
 IMPORTS = ("(import (only (chibi) string-cursor-ref string-cursor-set! string-cursor-next string-cursor-prev "
-           "string-cursor-end string-cursor-start string-index->cursor))")
+           "string-cursor-end string-cursor-start string-index->cursor)"
+           # (scheme char)'s char-upcase / char-downcase are Scheme procedures over the Unicode tables; the OPCODES are (chibi)'s
+           " (rename (only (chibi) char-upcase char-downcase) (char-upcase verif-op-char-upcase) (char-downcase verif-op-char-downcase)))")
+SCHEME_NAME = {"char-upcase": "verif-op-char-upcase", "char-downcase": "verif-op-char-downcase"}
 PRELUDE = r"""
 (define verif-L (make-string 2000 #\a))
 (define (verif-cur k)
@@ -249,9 +252,9 @@ def call_expr(rng, prim, args):
     names = " ".join("a%d" % i for i in range(len(args)))
     vals = " ".join(a["expr"] for a in args)
     if rng.random() < 0.2:    # through the first-class procedure (opcode wrapper) instead of the inlined opcode
-        inner = "(apply %s (list %s))" % (prim, names)
+        inner = "(apply %s (list %s))" % (SCHEME_NAME.get(prim, prim), names)
     else:
-        inner = "(%s %s)" % (prim, names)
+        inner = "(%s %s)" % (SCHEME_NAME.get(prim, prim), names)
     if prim in ("integer->char", "char-upcase", "char-downcase", "read-char", "peek-char"):
         # a character result is reported by its number: non-scalar characters are not valid UTF-8 on the answer line
         inner = "(let ((r %s)) (if (char? r) (char->integer r) r))" % inner
@@ -269,7 +272,7 @@ def relax(prim, args, verdict):
 
 
 def replay_cmd(d, expr):
-    prog = "(import (scheme base) (scheme write) (chibi)) %s (write %s)" % (PRELUDE.replace("\n", " "), expr)
+    prog = "(import (scheme base) (scheme write) (chibi)) %s %s (write %s)" % (IMPORTS, PRELUDE.replace("\n", " "), expr)
     return ("printf '%%s' '%s' | ASAN_OPTIONS=detect_leaks=0 LD_LIBRARY_PATH=%s CHIBI_MODULE_PATH=%s/lib CHIBI_IGNORE_SYSTEM_PATH=1 %s/chibi-scheme /dev/stdin"
             % (prog.replace("'", "'\\''"), d, d, d))
 
@@ -348,7 +351,7 @@ def run(ctx):
     rejected = {t["names"][i] for i, s in enumerate(safe) if s != "1"}
     if rejected:
         ctx.note("entries rejected by entry_safe: %s" % sorted(rejected))
-    n_per = 150 if not ctx.thorough else 1200
+    n_per = 110 if not ctx.thorough else 900       # x 24 primitives (round 3): the volume of the 17 x 150 of rounds 1-2
     cases = []
     for prim in PRIMS:
         n = n_per * (4 if PRIMS[prim][0] in rejected else 1)
@@ -457,7 +460,15 @@ def run(ctx):
     bv_accessor_stream(ctx, d)
     ph["bv_accessor_stream"] = round(time.time() - t0, 1)
     illformed_string_stream(ctx, d)
-    slot_accessor_stream(ctx, d)
+    # (chibi ast) make-getter / make-setter are a low-level reflection API outside the R7RS-small libraries the property
+    # quantifies over: with an out-of-range slot index they build an accessor that reads / writes behind the object (observed on the
+    # pinned tree; a stricter check in sexp_make_getter_op broke (chibi weak), whose ephemeron slots are weak slots beyond
+    # field_len_base, so no repair is committed).  Not a violation of C01 as stated: the stream is not run (lead's decision,
+    # DESIGN.md 10.5); it stays in the file for a future property about the reflection API.
+    if os.environ.get("C01_SLOT_ACCESSORS") == "1":
+        slot_accessor_stream(ctx, d)
+    else:
+        ctx.note("make-getter / make-setter ((chibi ast) reflection API) with out-of-range slot indices are outside the property's scope (R7RS-small procedures) and are not exercised")
     if trec is not None:
         printer_trunc_stream(ctx, exe, dflt, trec, tconst["vals"])
     t0 = time.time()
